@@ -113,7 +113,8 @@ func soup(rng *rand.Rand) string {
 		case k < 8:
 			b.WriteString(soupText[rng.Intn(len(soupText))])
 		case k < 9:
-			b.WriteString("<!--" + []string{"c", " a-b ", "", "<p>"}[rng.Intn(4)] + "-->")
+			// (incl. bogus comments: processing-instruction look-alikes are comments in HTML, and stay comments)
+			b.WriteString([]string{"<!--c-->", "<!-- a-b -->", "<!---->", "<!--<p>-->", "<?php echo 1 ?>", "<!--?xml version=\"1.0\"?-->", "<?x?>", "<?xml-stylesheet href=\"a.css\"?>", "<!x>", "<? >"}[rng.Intn(10)])
 		case k < 11 && len(open) > 0:
 			j := len(open) - 1
 			if rng.Intn(4) == 0 {
@@ -122,7 +123,9 @@ func soup(rng *rand.Rand) string {
 			b.WriteString("</" + open[j] + ">")
 			open = append(open[:j], open[j+1:]...)
 		default:
-			b.WriteString([]string{"</html>", "</body>", "<html lang=en>", "<body class=x>", "<head>", "</p>", "<![CDATA[x]]>"}[rng.Intn(7)])
+			b.WriteString([]string{"</html>", "</body>", "<html lang=en>", "<body class=x>", "<head>", "</p>", "<![CDATA[x]]>",
+				// text that the tree builder foster-parents inside a template in table / row context (adjacent text nodes stay apart)
+				"<template><tr>{{#if a}}<td>x</td>{{/if}}</tr></template>", "<table><template><tr>y</b>x</template>"}[rng.Intn(9)])
 		}
 	}
 	if rng.Intn(3) == 0 {
